@@ -35,6 +35,7 @@ def runLine (line : String) : String :=
   | some (T, cs) =>
     let (s, done) := run T (fuelFor T cs) (init cs)
     if !done then "FUEL\t-" else
-    observe s.implErr s.toks.reverse s.text ++ "\t-"
+    let h := substHand T cs
+    observe s.implErr s.toks.reverse s.text ++ "\t=" ++ observe false h.toks.reverse (substLine T cs)
 
 def main : IO Unit := YashModel.Proto.mainLoop runLine
